@@ -11,9 +11,6 @@ import (
 type Spec_ElectreIIIBiasLIstener struct {
 }
 
-type Spec_ElectreIIIBiasLIstener struct {
-}
-
 type Spec_ElectreIIIPreferenceFunc struct {
 }
 
@@ -42,9 +39,6 @@ type Spec_AlternativesMatrix struct {
 type Spec_electreIIISingleResult struct {
 	criterion *ElectreCriterion
 	result    *ElectreResult
-}
-
-type Spec_ElectreIIIPreferenceFunc struct {
 }
 
 type Spec_electreIIIParams struct {
